@@ -277,6 +277,11 @@ func genSteps(r *rand.Rand, n int) []gstep {
 		case 7:
 			st = append(st, gstep{kind: "readN"})
 		case 8, 9, 10:
+			if r.Intn(3) == 0 {
+				x := mkCall("SetTransform")
+				x.Sel = r.Intn(3)
+				st = append(st, gstep{kind: "xform", call: x})
+			}
 			st = append(st, gstep{kind: "helper", h: randHelper(r)})
 		default:
 			sp := mkCall("StartPath", -8, -8)
@@ -303,6 +308,17 @@ func runSteps(steps []gstep, top ivg.Destination, w *Writer, ncalls *int) {
 			top.CSel()
 		case "readN":
 			top.NSel()
+		case "xform":
+			// the path-data transform of the Generator: it concerns SetPathData only; the gradient helpers take their
+			// geometry in graphic coordinates whatever transform is configured
+			switch s.call.Sel % 3 {
+			case 0:
+				g.SetTransform(generate.Scale(2), generate.Translate(-48, -48))
+			case 1:
+				g.SetTransform(generate.Translate(5, -3))
+			default:
+				g.SetTransform()
+			}
 		case "helper":
 			w.Emit(map[string]string{"ev": "hstart"})
 			n0 := *ncalls
